@@ -817,6 +817,35 @@ def check_sha_padding(ctx, prog):
                 break
         if bad or und:
             break
+    # long messages: end() alone, from the state update() leaves after a whole number of blocks, with a bit count whose eight
+    # bytes are all different / sit in the upper bytes of either word (2 MiB and more) - the trailer is the count, big-endian
+    if not bad and not und:
+        for hi, lo in ((0x01020304, 0x05060800), (0, 0x01000000), (0, 0xff000000), (1, 0), (0x80000000, 0x00000200)):
+            blocks = []
+
+            def transform(run, e, args, blocks=blocks):
+                p_ = args[0]
+                blocks.append([run.load(('P', p_[1], p_[2] + j), e.get('l')) for j in range(64)])
+                return None
+            bufs = {'M.count': [lo, hi], 'M.buffer': [0] * 64, 'M.state': [0] * 5}
+            mems = {'count': ('P', 'M.count', 0), 'buffer': ('P', 'M.buffer', 0), 'state': ('P', 'M.state', 0)}
+            try:
+                scansim.Run(prog, end, bufs, mems=mems, methods={'transform': transform, 'update': 'interp'}, ignore=ignore).run()
+            except scansim.OOB as o:
+                bad = ((hi << 32 | lo) // 8, (hi << 32 | lo) // 8, 'out-of-bounds access: %s' % o)
+                break
+            except scansim.Unsupported as u:
+                und = ((hi << 32 | lo) // 8, str(u))
+                break
+            runs += 1
+            bits = hi << 32 | lo
+            want = [0x80] + [0] * 55 + [(bits >> (8 * (7 - i))) & 255 for i in range(8)]
+            got = [b & 255 for blk in blocks for b in blk]
+            if got != want:
+                d = next((i for i, (a_, b_) in enumerate(zip(got, want)) if a_ != b_), min(len(got), len(want)))
+                bad = (bits // 8, bits // 8, 'the final block is not 0x80, zeros and the 64-bit big-endian bit length %016x: first difference at byte %s (%s instead of %s)' % (
+                    bits, d, '%02x' % got[d] if d < len(got) else 'nothing', '%02x' % want[d] if d < len(want) else 'nothing'))
+                break
     ctx.evaluations += runs
     if bad:
         ctx.violation('C15.shapad', end['pq'], role, fwhere(end), 'for a %d-byte message (fed as %d + %d bytes) the blocks passed to transform() are not the FIPS 180-4 padding: %s' % (bad[0], bad[1], bad[0] - bad[1], bad[2]))
